@@ -1,6 +1,7 @@
 package main
 
 import (
+	"regexp"
 	"context"
 	"go/token"
 	"encoding/json"
@@ -671,8 +672,14 @@ func (cr *checkRun) report(start time.Time, loadS float64, reports []*FuncReport
 					rest = rest[:h+1]
 				}
 				snip := strings.Trim(rest, "\"")
-				if line := sourceLine(cr.prog, j.ob.Pos); line != "" && strings.Contains(strings.ReplaceAll(line, " ", ""), strings.ReplaceAll(snip, " ", "")) {
-					return reason
+				if line := sourceLine(cr.prog, j.ob.Pos); line != "" {
+					if strings.Contains(strings.ReplaceAll(line, " ", ""), strings.ReplaceAll(snip, " ", "")) {
+						return reason
+					}
+					// the same statement with locals or parameters renamed since the contract was written
+					if re := snippetModuloLocals(cr.prog, j.ex.root, snip); re != nil && re.MatchString(strings.ReplaceAll(line, " ", "")) {
+						return reason
+					}
 				}
 			}
 		}
@@ -896,4 +903,55 @@ func sourceLine(prog *Program, p token.Pos) string {
 		return lines[ps.Line-1]
 	}
 	return ""
+}
+
+
+// snippetModuloLocals: the source snippet as a pattern in which every name recorded for the function in the name lock
+// (its parameters and named locals at the time the contract was written) matches any identifier.
+func snippetModuloLocals(prog *Program, fn *ssa.Function, snip string) *regexp.Regexp {
+	if prog.Lock == nil || fn == nil {
+		return nil
+	}
+	le, ok := prog.Lock[lockKeyOf(fn)]
+	if !ok {
+		return nil
+	}
+	names := map[string]bool{}
+	for _, p := range le.Params {
+		names[p] = true
+	}
+	for _, l := range le.Locals {
+		names[l.Name] = true
+	}
+	if len(names) == 0 {
+		return nil
+	}
+	src := strings.ReplaceAll(snip, " ", "")
+	var sb strings.Builder
+	i := 0
+	isID := func(c byte) bool { return c == '_' || c >= 'a' && c <= 'z' || c >= 'A' && c <= 'Z' || c >= '0' && c <= '9' }
+	for i < len(src) {
+		if isID(src[i]) && !(src[i] >= '0' && src[i] <= '9') {
+			j := i
+			for j < len(src) && isID(src[j]) {
+				j++
+			}
+			w := src[i:j]
+			// a selector x.f keeps its field name: only a name that starts an operand can be a local
+			if names[w] && (i == 0 || src[i-1] != '.') {
+				sb.WriteString(`[A-Za-z_][A-Za-z0-9_]*`)
+			} else {
+				sb.WriteString(regexp.QuoteMeta(w))
+			}
+			i = j
+			continue
+		}
+		sb.WriteString(regexp.QuoteMeta(string(src[i])))
+		i++
+	}
+	re, err := regexp.Compile(sb.String())
+	if err != nil {
+		return nil
+	}
+	return re
 }
